@@ -11,9 +11,9 @@ HTTP/2 / HTTP/3 what resets the stream and returns its flow-control credit. The 
 * `ZstdReader.Close`:  `Body.Close()`, then `zr.Close()` if a decoder was built (fixes/C14-6; the
   fork has the other order, and `zstd.Decoder.Close` WAITS for the goroutine that is reading the
   body: `Legacy.closeWaits`);
-* `DeflateReader.Close` — as the fork has it: `if dr != nil { return dr.Close() }` — and
+* `DeflateReader.Close` — as the fork had it until /repo 1ae1001: `if dr != nil { return dr.Close() }` — and
   `flate`'s `Close` does NOT touch its source: once a `Read` has happened the body is never
-  closed (`Legacy.closeOf .deflate`). Repaired by fixes/C14-5: close the decoder, then the body
+  closed (`Legacy.closeOf .deflate`). Repaired in /repo by 1ae1001 (during round 4): close the decoder, then the body
   (`closeOf .deflate`).
 -/
 namespace Req.Compress
@@ -65,7 +65,7 @@ def closeWaits : Alg → Handles → Bool
   | .zstd, h => h.started && h.sticky.isNone
   | _, _ => false
 
-/-- `DeflateReader.Close` before fixes/C14-5. -/
+/-- `DeflateReader.Close` before /repo 1ae1001. -/
 def closeOf : Alg → Handles → Handles
   | .deflate, h =>
     if h.started then { h with decoderCloses := h.decoderCloses + 1 }
